@@ -20,7 +20,7 @@ class Spec(CheckSpec):
         "distinct (scenario-shape, op-kind trace) pairs"
     )
     assumptions = ["for TAP agents and the database-corrupting agent only the lower gap bound is asserted (they may legitimately answer do-nothing at a scheduled step)"]
-    required_probes = ["c19_periodic_first_action", "c19_periodic_gap_checked", "c19_probabilistic_with_zero_entry", "c19_kill_chain_stage_changed"]
+    required_probes = ["c19_periodic_first_action", "c19_periodic_gap_checked", "c19_probabilistic_with_zero_entry", "c19_kill_chain_stage_changed", "c19_tap_stage_with_probability_zero"]
 
     def budget(self, tier: str) -> float:
         return 120.0 if tier == "quick" else 1500.0
@@ -42,6 +42,10 @@ class Spec(CheckSpec):
         for k in range(16 if tier == "quick" else 200):
             s = base_seed * 1000003 + 994000 + k
             yield {"seed": s, "shipped": "uc7_config.yaml" if k % 4 else "uc7_config_tap003.yaml", "tap_variation": s, "max_episode_length": 128, "n_ops": 120, "monitors": ["c19"], "ambush": 0.9 if k % 2 else 0.6, "ambush_mode": "flap" if k % 4 in (1, 2) else "uninstall", "tap_fast": k % 4 != 0, "op_mix": {"step": 0.95, "reset": 0.0, "fault": 0.05}}
+        # kill chains that are certain and quick except for one stage with probability 0 (quiet defender)
+        for k, (name, stage) in enumerate([("uc7_config_tap003.yaml", "EXPLOIT"), ("uc7_config_tap003.yaml", "MANIPULATION"), ("uc7_config.yaml", "PROPAGATE"), ("uc7_config.yaml", "PAYLOAD")] * (1 if tier == "quick" else 6)):
+            s = base_seed * 1000003 + 995000 + k
+            yield {"seed": s, "shipped": name, "tap_variation": s, "tap_zero_stage": stage, "max_episode_length": 110, "n_ops": 100, "monitors": ["c19"], "ambush": 0.97, "ambush_mode": "none", "op_mix": {"step": 0.98, "reset": 0.0, "fault": 0.02}}
         for i in range(n):
             seed = base_seed * 1000003 + 190000000 + i
             prof = {"obs": False, "n_green": (1, 3), "n_red": (1, 3), "episode_len": (25, 50), "tight_links": 0.05, "action_map_size": (8, 24)}
